@@ -249,3 +249,39 @@ def c15e(ctx):
         ok = ok and all(unparse(x.args[0]) == 'layer_img' and unparse(x.args[1]) == 'layer.coverage' for n, x in adds)
         ctx.check(ok, '%s:adds-every-image' % fn.short, 'every non-empty layer image is added to the merger with its layer coverage', fn,
                   fail='%s does not add each rendered layer image (with layer.coverage) to the merger' % fn.short)
+
+
+@rule('C15.f', floor=5)
+def c15f(ctx):
+    """sequence numbers start at 0 on both sides; the fetch loop runs while either queue still holds something; users of
+    result objects read .result only when .exception is None and re-raise otherwise"""
+    me = ctx.fn(A + ':ThreadPool.map_each')
+    defs = Defs(me.node)
+    nr = [v for v, sel in defs.of('next_result') if sel is None]
+    en = [x for x in me.walk() if is_call(x, 'enumerate')]
+    ok = bool(nr) and all(const_value(v) == 0 for v in nr) and bool(en) and all(len(x.args) == 1 and not x.keywords for x in en)
+    ctx.check(ok, 'ThreadPool.map_each:numbering-from-zero', 'tasks are numbered from 0 and the consumer expects 0 first', me,
+              fail='task numbering and the first expected index disagree: the first result is parked forever / results shift')
+    fr = ctx.fn(A + ':ThreadPool._fetch_results')
+    w = [s for s in fr.walk() if isinstance(s, ast.While)]
+    ok = len(w) == 1
+    if ok:
+        from ..decide import expr_table
+        tab = ctx.rows(expr_table(w[0].test))
+        tq = [a for a in tab.atoms if 'task_queue.empty' in a]
+        rq = [a for a in tab.atoms if 'result_queue.empty' in a]
+        ok = len(tq) == 1 and len(rq) == 1 and all(v == ((not asg[tq[0]]) or (not asg[rq[0]])) for asg, v, _ in tab.assignments())
+    ctx.check(ok, 'ThreadPool._fetch_results:loop-condition', 'results are fetched while the task queue or the result queue is non-empty', fr,
+              fail='the fetch loop stops although results are still queued (or tasks still pending): results are lost')
+    users = [('mapproxy/service/wms.py:LayerRenderer._render_raise_exceptions', 'layer_task'),
+             ('mapproxy/service/wms.py:LayerRenderer._render_capture_source_errors', 'layer_task'),
+             ('mapproxy/cache/tile.py:TileCreator._create_bulk_meta_tile', 'tile_task')]
+    for qn, var in users:
+        fn = ctx.fn(qn)
+        g = fn.cfg
+        isnone = lambda at: at.op == '==' and ('%s.exception' % var) in at.text and 'None' in at.text
+        reads = g.find(lambda x: isinstance(x, ast.Attribute) and x.attr == 'result' and unparse(x.value) == var)
+        rer = g.find(lambda x: is_call(x, 'reraise', 'reraise_exception'))
+        ok = bool(reads) and all(g.guarded(n, isnone, True) for n, x in reads) and bool(rer) and all(g.guarded(n, isnone, False) for n, x in rer)
+        ctx.check(ok, '%s:result-iff-no-exception' % fn.short, '.result is used only when .exception is None; otherwise the exception is re-raised (or recorded)', fn,
+                  fail='%s reads .result of a failed item or re-raises a successful one: a failure is swallowed or attributed wrongly' % fn.short)
